@@ -1,4 +1,34 @@
-import FluentModel.Util
+import FluentModel.Pseudo
+/-! Driver for area `pseudo` (C20): payload = `<dom|plain> <flipped><elongate><markers> <hex>`.
+Observation: `ok:<hex>` / `panic`; `unsupported` when the input has a non-ASCII character whose `\w`/`\s`
+class the model does not know (only matters for `dom`); `regex-changed` when the source's regexes are no
+longer the ones this model implements. -/
 namespace FluentModel.Drv.PseudoDrv
-def run (_payload : String) : String := "unsupported"
+open FluentModel FluentModel.Pseudo
+
+def flag (c : Char) : Option Bool :=
+  if c == '1' then some true else if c == '0' then some false else none
+
+def showOut : Outcome (List Char) → String
+  | .done cs => "ok:" ++ hexEnc (String.ofList cs).toUTF8.data.toList
+  | .panic _ => "panic"
+
+def run (payload : String) : String :=
+  match payload.splitOn " " with
+  | [kind, flags, hex] =>
+    match flags.toList, hexDecode hex with
+    | [f, e, m], some bs =>
+      match flag f, flag e, flag m, String.fromUTF8? (ByteArray.mk bs.toArray) with
+      | some f, some e, some m, some str =>
+        let s := str.toList
+        if Generated.pseudoExcludedRegex != modelledExcludedRegex || Generated.pseudoAzRegex != modelledAzRegex then
+          "regex-changed"
+        else if kind == "plain" then showOut (transform generatedTables f e s)
+        else if kind == "dom" then
+          if supported s then showOut (transformDom generatedTables s f e m) else "unsupported"
+        else "bad-input"
+      | _, _, _, _ => "bad-input"
+    | _, _ => "bad-input"
+  | _ => "bad-input"
+
 end FluentModel.Drv.PseudoDrv
